@@ -63,7 +63,11 @@ func genC31(seed uint64, tier string) any {
 	}
 	conns := 1
 	for conns < n {
-		switch r.Pick([]int{0, 2, 2, 3, 6, 2, 1, 1, 2}) {
+		switch r.Pick([]int{0, 2, 2, 3, 6, 2, 1, 1, 2, 1}) {
+		case 9:
+			if sc.KeyMode != "auto" {
+				sc.Events = append(sc.Events, c31Event{Kind: "clone"})
+			}
 		case 8:
 			sc.Events = append(sc.Events, c31Event{Kind: "restore", Off: r.Intn(8)})
 		case 1:
@@ -180,6 +184,11 @@ func execC31(t *testing.T, scAny any, keepLog bool) *Outcome {
 		case "explicit":
 			keysA = [][32]byte{newKey()}
 			srvA.SetSessionTicketKeys(keysA)
+			if sc.Seed%2 == 0 {
+				// the foreign server is a re-keyed clone of A (two virtual hosts derived from one base config)
+				srvB = srvA.Clone()
+				srvB.Rand = kit.NewReader(run.R.Derive("srvB-clone"))
+			}
 			srvB.SetSessionTicketKeys([][32]byte{newKey()})
 		case "legacy":
 			srvA.SessionTicketKey = newKey()
@@ -261,6 +270,20 @@ func execC31(t *testing.T, scAny any, keepLog bool) *Outcome {
 			case "server_max":
 				srvA.MaxVersion = ev.Max
 				o.count("fault.version_change", 1)
+			case "clone":
+				// From now on the server serves from a Clone of its configuration (as GetConfigForClient users do);
+				// a clone has the same ticket keys, so nothing changes for the model. The original object is then
+				// re-keyed with unrelated keys, which must not reach the clone.
+				if sc.KeyMode == "auto" {
+					continue
+				}
+				old := srvA
+				srvA = old.Clone()
+				old.SetSessionTicketKeys([][32]byte{newKey()})
+				if ev.Off%2 == 0 {
+					old.SetSessionTicketKeys([][32]byte{newKey(), newKey()})
+				}
+				o.count("fault.config_cloned_original_rekeyed", 1)
 			case "restore":
 				// the client falls back to a session it stored earlier (authentic, but possibly old)
 				var mine []*tls.ClientSessionState
@@ -538,7 +561,7 @@ func init() {
 		Stub:   []string{"client session cache (harness-owned, via the public ClientSessionCache interface)", "transport", "clock", "entropy"},
 		Assume: []string{"a resumed connection must present a ticket byte-identical to one issued by this server", "progress is only asserted for unaltered tickets younger than one hour under the current first key with an unchanged offer"},
 		FaultKinds: []string{"fault.ticket_flip", "fault.ticket_flip_name", "fault.ticket_flip_iv", "fault.ticket_flip_body", "fault.ticket_flip_mac", "fault.ticket_trunc", "fault.ticket_extend", "fault.ticket_splice", "fault.ticket_empty",
-			"fault.ticket_foreign", "fault.old_session_restored", "fault.rotate_keep", "fault.rotate_drop", "fault.clock_advance", "fault.clock_advance_beyond_lifetime", "fault.version_change", "probe.resumed", "probe.full_handshake", "probe.tampered_ticket_presented"},
+			"fault.ticket_foreign", "fault.old_session_restored", "fault.config_cloned_original_rekeyed", "fault.rotate_keep", "fault.rotate_drop", "fault.clock_advance", "fault.clock_advance_beyond_lifetime", "fault.version_change", "probe.resumed", "probe.full_handshake", "probe.tampered_ticket_presented"},
 		NotInjected: "wire-level corruption of the ticket is C25/C32 territory (it breaks the Finished check); no storage",
 		Gen:         genC31, New: func() any { return &c31Scenario{} }, Exec: execC31, Shrink: shrinkC31,
 		QuickRuns: 4000, ThoroughRuns: 300000,
